@@ -32,8 +32,45 @@ import (
 
 const zone = "c10.test."
 
+// serverNSID is the name-server identifier the rig is configured with: an NSID
+// option in a reply carries these bytes, and only when the query asked.
+const serverNSID = "vc10"
+
 // ---------------------------------------------------------------------------
 // answers encode the question: rdata = f(qname, qtype)
+
+// Reply size classes of the stream transports (server/tcp_stream.go): a framed
+// reply is staged in the 8 KiB drain buffer when it fits what is left (small),
+// flushes the buffer first when it fits only an empty one (large: two of them
+// never share the buffer), and is written on its own when it is larger than
+// the whole buffer (huge).  The class of an answer is a function of the
+// question: TXT of a "b-" name is large, TXT of a "g-" name is huge.
+const (
+	drainSize   = 8 << 10
+	largeTXTs   = 22 // ~4.7 kB
+	hugeTXTs    = 50 // ~10.7 kB
+	bigTXTChunk = 200
+)
+
+func sizeClassOfLen(n int) string {
+	switch {
+	case n+2 > drainSize:
+		return "huge"
+	case 2*(n+2) > drainSize:
+		return "large"
+	}
+	return "small"
+}
+
+// bigTXT is the i-th string of a large/huge TXT RRset: 200 hex digits derived from (name, i).
+func bigTXT(name string, i int) string {
+	var sb strings.Builder
+	for k := 0; sb.Len() < bigTXTChunk; k++ {
+		h := sha256.Sum256([]byte(fmt.Sprintf("%s|%d|%d", name, i, k)))
+		sb.WriteString(fmt.Sprintf("%x", h[:]))
+	}
+	return sb.String()[:bigTXTChunk]
+}
 
 func answerRRs(name string, qtype uint16) []dns.RR {
 	name = strings.ToLower(name)
@@ -47,12 +84,40 @@ func answerRRs(name string, qtype uint16) []dns.RR {
 				A: net.IPv4(10, h[3], h[4], h[5])},
 		}
 	case dns.TypeTXT:
+		n := 0
+		switch {
+		case strings.HasPrefix(name, "g-"):
+			n = hugeTXTs
+		case strings.HasPrefix(name, "b-"):
+			n = largeTXTs
+		}
+		if n > 0 {
+			out := make([]dns.RR, 0, n)
+			for i := 0; i < n; i++ {
+				out = append(out, &dns.TXT{Hdr: dns.RR_Header{Name: name, Rrtype: dns.TypeTXT, Class: dns.ClassINET, Ttl: 300},
+					Txt: []string{bigTXT(name, i)}})
+			}
+			return out
+		}
 		return []dns.RR{
 			&dns.TXT{Hdr: dns.RR_Header{Name: name, Rrtype: dns.TypeTXT, Class: dns.ClassINET, Ttl: 300},
 				Txt: []string{"c10:" + name, fmt.Sprintf("%x", h[:8])}},
 		}
 	}
 	return nil
+}
+
+// sizeClassOfAnswer is the class of the reply f(question) makes.
+func sizeClassOfAnswer(name string, qtype uint16) string {
+	if qtype == dns.TypeTXT {
+		switch {
+		case strings.HasPrefix(strings.ToLower(name), "g-"):
+			return "huge"
+		case strings.HasPrefix(strings.ToLower(name), "b-"):
+			return "large"
+		}
+	}
+	return "small"
 }
 
 func rrKey(rr dns.RR) string {
@@ -187,6 +252,7 @@ func newRig(o server.VerifC10Opts, workers, queue int, mutate func(*config.Confi
 	cfg.IngressWorkers = workers
 	cfg.IngressQueue = queue
 	cfg.QueryTimeout.Duration = 4 * time.Second
+	cfg.NSID = serverNSID
 	if mutate != nil {
 		mutate(cfg)
 	}
@@ -288,6 +354,96 @@ func msgEnd(b []byte) int {
 	return off
 }
 
+// ednsOpt is one option of an OPT record, as it sits on the wire.
+type ednsOpt struct {
+	code uint16
+	data []byte
+}
+
+// optFacts is what a packet's OPT record says (has == false: no OPT).
+type optFacts struct {
+	has  bool
+	udp  uint16
+	do   bool
+	opts []ednsOpt
+}
+
+// wireOPT walks a message to its OPT record without decoding anything else.
+// ok == false: the bytes are not a walkable message.
+func wireOPT(b []byte) (f optFacts, ok bool) {
+	if len(b) < 12 {
+		return f, false
+	}
+	qd := int(binary.BigEndian.Uint16(b[4:]))
+	rr := int(binary.BigEndian.Uint16(b[6:])) + int(binary.BigEndian.Uint16(b[8:])) + int(binary.BigEndian.Uint16(b[10:]))
+	off := 12
+	for i := 0; i < qd; i++ {
+		if off = skipName(b, off); off < 0 || off+4 > len(b) {
+			return f, false
+		}
+		off += 4
+	}
+	for i := 0; i < rr; i++ {
+		start := off
+		if off = skipName(b, off); off < 0 || off+10 > len(b) {
+			return f, false
+		}
+		typ := binary.BigEndian.Uint16(b[off:])
+		rdl := int(binary.BigEndian.Uint16(b[off+8:]))
+		if off+10+rdl > len(b) {
+			return f, false
+		}
+		if typ == dns.TypeOPT && b[start] == 0 && !f.has {
+			f.has = true
+			f.udp = binary.BigEndian.Uint16(b[off+2:])
+			f.do = b[off+6]&0x80 != 0
+			rd := b[off+10 : off+10+rdl]
+			for len(rd) >= 4 {
+				code := binary.BigEndian.Uint16(rd)
+				l := int(binary.BigEndian.Uint16(rd[2:]))
+				if 4+l > len(rd) {
+					break
+				}
+				f.opts = append(f.opts, ednsOpt{code: code, data: rd[4 : 4+l]})
+				rd = rd[4+l:]
+			}
+		}
+		off += 10 + rdl
+	}
+	return f, true
+}
+
+// cookieOf is the client half (first 8 bytes, hex) of a packet's COOKIE option, "" without one.
+func (f optFacts) cookieOf() string {
+	for _, o := range f.opts {
+		if o.code == dns.EDNS0COOKIE {
+			return fmt.Sprintf("%x", o.data[:min(8, len(o.data))])
+		}
+	}
+	return ""
+}
+
+// hasOption reports whether the OPT carries an option of this code.
+func (f optFacts) hasOption(code uint16) bool {
+	for _, o := range f.opts {
+		if o.code == code {
+			return true
+		}
+	}
+	return false
+}
+
+// optKind is the packet's EDNS shape in the specs' vocabulary.
+func (f optFacts) optKind() string {
+	switch {
+	case !f.has:
+		return "none"
+	case f.cookieOf() != "":
+		return "cookie"
+	}
+	return "plain"
+}
+
 // tagOf is the provenance tag of a packet: id, and lower-cased question
 // "name/type" ("" when the packet carries no parseable question).
 func tagOf(b []byte) (id int, q string, ok bool) {
@@ -373,24 +529,34 @@ func stName(s uint8) string {
 }
 
 type traceLine struct {
-	Ev    string `json:"ev"`
-	J     int    `json:"j"`
-	St    string `json:"st"`
-	From  string `json:"from"`
-	To    string `json:"to"`
-	RxID  int    `json:"rxid"`
-	RxQ   string `json:"rxq"`
-	RK    string `json:"rk"`
-	Src   string `json:"src"`
-	SA    string `json:"sa"`
-	TL    int    `json:"tl"`
-	TxID  int    `json:"txid"`
-	TxQ   string `json:"txq"`
-	Rp    bool   `json:"rp"`
-	B     int    `json:"b"`
-	Ls    int    `json:"ls"`
-	If    int    `json:"if"`
-	Cap   int    `json:"cap"`
+	Ev   string `json:"ev"`
+	J    int    `json:"j"`
+	St   string `json:"st"`
+	From string `json:"from"`
+	To   string `json:"to"`
+	RxID int    `json:"rxid"`
+	RxQ  string `json:"rxq"`
+	RK   string `json:"rk"`
+	Src  string `json:"src"`
+	SA   string `json:"sa"`
+	TL   int    `json:"tl"`
+	TxID int    `json:"txid"`
+	TxQ  string `json:"txq"`
+	Rp   bool   `json:"rp"`
+	B    int    `json:"b"`
+	Ls   int    `json:"ls"`
+	If   int    `json:"if"`
+	Cap  int    `json:"cap"`
+	// EDNS provenance: the shape and client cookie of the packet in RX, whether the
+	// bytes in TX carry an OPT and the client half of their COOKIE option
+	RxOpt string `json:"rxopt"`
+	RxCk  string `json:"rxck"`
+	RxN   bool   `json:"rxn"` // the packet in RX asks for NSID
+	RxK   bool   `json:"rxk"` // ... sent edns-tcp-keepalive
+	TxOpt bool   `json:"txopt"`
+	TxCk  string `json:"txck"`
+	TxN   bool   `json:"txn"` // the bytes in TX carry an NSID option
+	TxK   bool   `json:"txk"` // ... an edns-tcp-keepalive option
 	Stamp int64  `json:"-"`
 }
 
@@ -446,6 +612,10 @@ func (t *traceSink) fn(e *server.VerifUDPEvent) {
 	if len(e.Rx) > 0 {
 		ln.RxID, ln.RxQ, _ = tagOf(e.Rx)
 		ln.RK = rxKind(e.Rx)
+		if f, ok := wireOPT(e.Rx); ok {
+			ln.RxOpt, ln.RxCk = f.optKind(), f.cookieOf()
+			ln.RxN, ln.RxK = f.hasOption(dns.EDNS0NSID), f.hasOption(dns.EDNS0TCPKEEPALIVE)
+		}
 	}
 	if e.Raddr.IsValid() {
 		ln.Src = netip.AddrPortFrom(e.Raddr.Addr().Unmap(), e.Raddr.Port()).String()
@@ -457,6 +627,10 @@ func (t *traceSink) fn(e *server.VerifUDPEvent) {
 	}
 	if len(tx) > 0 {
 		ln.TxID, ln.TxQ, _ = tagOf(tx)
+		if f, ok := wireOPT(tx); ok {
+			ln.TxOpt, ln.TxCk = f.has, f.cookieOf()
+			ln.TxN, ln.TxK = f.hasOption(dns.EDNS0NSID), f.hasOption(dns.EDNS0TCPKEEPALIVE)
+		}
 	}
 	t.mu.Lock()
 	j, ok := t.slabs[e.Slab]
